@@ -9,7 +9,7 @@ import subprocess
 import sys
 
 HERE = os.path.dirname(os.path.dirname(os.path.abspath(__file__)))
-PROPS = ['C07']
+PROPS = ['C07', 'C05', 'C12', 'C13', 'C16']
 
 
 def digest(prop, runs, workers, hashseed):
@@ -28,7 +28,7 @@ def main():
     ap.add_argument('--quick', action='store_true')
     ap.add_argument('--props', nargs='*')
     args = ap.parse_args()
-    runs = 48 if args.quick else 320
+    runs = 96 if args.quick else 320
     ok = True
     for prop in (args.props or PROPS):
         a = digest(prop, runs, 16, 0)
